@@ -295,7 +295,7 @@ int main(int argc, char** argv) {
   double t0 = now_s();
   limit_memory(8ULL << 30);
   const int i123[3] = {1, 2, 0};     // triangle, strip, universe
-  const int extra = ARGS.thorough() ? 1 : 0;   // cheap classes go one level deeper in the thorough tier
+  const int deeper = ARGS.thorough() ? 1 : 0;   // cheap classes go one level deeper in the thorough tier
 #if VF_GROUP == 1
   run_class(polyhedron_adapter<PPL::C_Polyhedron>("C_Polyhedron"), depth, i123);
 #elif VF_GROUP == 2
@@ -311,12 +311,12 @@ int main(int argc, char** argv) {
   run_class(product_adapter<PPL::Domain_Product<PPL::C_Polyhedron, PPL::Grid>::Constraints_Product>("Constraints_Product<C_Polyhedron,Grid>"), depth, i123);
 #elif VF_GROUP == 6
   { const int il[3] = {1, 2, 3};
-    run_class(linexpr_adapter(PPL::DENSE, "Linear_Expression<DENSE>"), depth + extra, il);
-    run_class(linexpr_adapter(PPL::SPARSE, "Linear_Expression<SPARSE>"), depth + extra, il); }
+    run_class(linexpr_adapter(PPL::DENSE, "Linear_Expression<DENSE>"), depth + deeper, il);
+    run_class(linexpr_adapter(PPL::SPARSE, "Linear_Expression<SPARSE>"), depth + deeper, il); }
   { const int is[3] = {1, 2, 0};
-    run_class(consys_adapter(), depth + extra, is);
-    run_class(gensys_adapter(), depth + extra, is);
-    run_class(cgsys_adapter(), depth + extra, is);
+    run_class(consys_adapter(), depth + deeper, is);
+    run_class(gensys_adapter(), depth + deeper, is);
+    run_class(cgsys_adapter(), depth + deeper, is);
     run_class(mip_adapter(), depth, is);
     run_class(pip_adapter(), depth, is); }
 #else
